@@ -54,16 +54,23 @@ def real_dataset_bytes(ts_name, size_hint):
     return fp.parent.getvalue()
 
 
-def run_case(cf, fields, data, M, pc_id, groups, reception, ts_name, frag_source='ref', real_ds=False):
+# values a peer may put in Command Data Set Type (0000,0800) of a message that carries a data set:
+# PS3.7 - anything other than 0101H
+DSTYPES = [0x0001, 0x0000, 0x0102, 0xFFFF, 0x0100, 0x0001]
+
+
+def run_case(cf, fields, data, M, pc_id, groups, reception, ts_name, frag_source='ref', real_ds=False, dstype=1):
     """Feed one grouping of one message to a fresh DIMSEDecoder and check everything."""
     from pynetdicom2 import fsm, pdu, dsutils, asceprovider, dimsemessages, applicationentity
     import pynetdicom2
     from pydicom import uid
     case = {'cf': cf, 'fields': fields, 'data': data, 'M': M, 'pc_id': pc_id, 'groups': groups,
-            'reception': reception, 'ts': ts_name, 'frag_source': frag_source, 'real_ds': real_ds}
+            'reception': reception, 'ts': ts_name, 'frag_source': frag_source, 'real_ds': real_ds, 'dstype': dstype}
     spec = {'cf': cf, 'fields': fields, 'data': data}
     exp = dg.expected_fields(spec)
     wire_fields = {el: v for el, v in exp.items()}
+    if data and frag_source == 'ref':
+        wire_fields[0x0800] = dstype
     cmd_bytes = refcmd.encode(wire_fields)
     if frag_source == 'ref':
         frags = dg.ref_fragments(cmd_bytes, data, M, pc_id)
@@ -119,6 +126,11 @@ def run_case(cf, fields, data, M, pc_id, groups, reception, ts_name, frag_source
         gf, _ = refcmd.wellformed(got_cmd)
         wf, _ = refcmd.wellformed(cmd_bytes)
         for el in set(gf) | set(wf):
+            if el == 0x0800 and gf.get(el) is not None and wf.get(el) is not None:
+                # Command Data Set Type has two meanings only (0101H = no data set, anything else = data set
+                # present); the library stores its own 'present' code, which is the same command set
+                if (gf[el] == refcmd.NO_DATASET) == (wf[el] == refcmd.NO_DATASET):
+                    continue
             if norm(gf.get(el)) != norm(wf.get(el)):
                 raise Violation('C07:command-set', 'element (0000,%04X): got %r, sent %r'
                                 % (el, gf.get(el), wf.get(el)), case)
@@ -218,11 +230,13 @@ def run_exhaustive(ctx, job):
         for groups in compositions(nfrag):
             src = 'lib' if (idx + len(groups)) % 4 == 0 else 'ref'
             try:
-                run_case(cf, fields, data, M, PCIDS[idx % len(PCIDS)], groups, reception, ts_name, src)
+                dstype = DSTYPES[(idx // 4) % len(DSTYPES)]
+                run_case(cf, fields, data, M, PCIDS[idx % len(PCIDS)], groups, reception, ts_name, src, dstype=dstype)
             except Violation as v:
                 ctx.fail(v.key, v.what, v.case)
             ctx.case(('ex', cf, M, L, groups, reception), nontrivial(nfrag, groups),
-                     labels=['exhaustive', 'cf=%04X' % cf, 'recv=' + reception, 'nfrag=%d' % nfrag, 'frags=' + src],
+                     labels=['exhaustive', 'cf=%04X' % cf, 'recv=' + reception, 'nfrag=%d' % nfrag, 'frags=' + src] +
+                     (['dstype=%04X' % dstype] if data and src == 'ref' else []),
                      sample={'cf': cf, 'M': M, 'L': L, 'groups': groups, 'reception': reception})
 
 
@@ -259,7 +273,7 @@ def run_tiny(ctx):
                                [(0, 1), (1, n - 2), (n - 2, n)]):
                     try:
                         run_case(1, fields, data, M, 5, groups, reception, ('implicit', 'explicit', 'big')[ri],
-                                 'lib' if L % 2 else 'ref')
+                                 'lib' if L % 2 else 'ref', dstype=DSTYPES[(L // 2 + ri) % len(DSTYPES)])
                     except Violation as v:
                         ctx.fail(v.key, v.what, v.case)
                     ctx.case(('tiny', M, L, reception, groups), nontrivial(n, groups),
@@ -361,16 +375,18 @@ def random_case(draw):
     reception = draw(st.sampled_from(['memory', 'tempfile', 'directory'])) if cf == 1 else 'memory'
     ts_name = draw(st.sampled_from(['implicit', 'explicit', 'big']))
     src = draw(st.sampled_from(['ref', 'ref', 'lib']))
-    return cf, fields, data, M, pc_id, groups, reception, ts_name, src, n
+    dstype = draw(st.one_of(st.sampled_from(DSTYPES), st.integers(0, 0xFFFF).filter(lambda v: v != 0x0101)))
+    return cf, fields, data, M, pc_id, groups, reception, ts_name, src, dstype, n
 
 
 def run_random(ctx, n):
     def fn(value):
-        cf, fields, data, M, pc_id, groups, reception, ts_name, src, nfrag = value
-        ctx.case(('rnd',) + tuple(value[:9]), nontrivial(nfrag, groups),
-                 labels=['random', 'recv=' + reception, 'frags=' + src],
+        cf, fields, data, M, pc_id, groups, reception, ts_name, src, dstype, nfrag = value
+        ctx.case(('rnd',) + tuple(value[:10]), nontrivial(nfrag, groups),
+                 labels=['random', 'recv=' + reception, 'frags=' + src] +
+                 (['dstype=' + ('0001' if dstype == 1 else '0000' if dstype == 0 else 'other')] if data and src == 'ref' else []),
                  sample={'cf': cf, 'M': M, 'L': len(data or b''), 'groups': groups, 'reception': reception})
-        run_case(cf, fields, data, M, pc_id, groups, reception, ts_name, src)
+        run_case(cf, fields, data, M, pc_id, groups, reception, ts_name, src, dstype=dstype)
     hyp_search(ctx, random_case(), fn, n, name='C07-random')
 
 
@@ -389,7 +405,7 @@ def run(ctx):
     ctx.rule = ('messages of all 23 command fields, command sets and fragments produced by the reference '
                 'encoder (a quarter by the library), every composition of the fragment list into P-DATA-TF PDUs '
                 'for lists up to the bound (2^(n-1) groupings each), Hypothesis-drawn groupings for longer lists; '
-                'in-memory, temp-file and directory-backed reception; genuine data sets in 3 transfer syntaxes; sequences of 2-3 (thorough 4) messages of mixed kind on one '
+                'in-memory, temp-file and directory-backed reception; Command Data Set Type of data-bearing messages drawn from {0001H, 0000H, 0102H, FFFFH, 0100H, any value but 0101H}; genuine data sets in 3 transfer syntaxes; sequences of 2-3 (thorough 4) messages of mixed kind on one '
                 'association through the real provider loop; '
                 'non-trivial = >=3 fragments and a grouping that is neither all-singletons nor one block; '
                 'distinct by (message, M, L, grouping, reception)')
@@ -419,4 +435,5 @@ def replay(case):
         return
     groups = [tuple(g) for g in case['groups']] if case['groups'] else None
     run_case(case['cf'], case['fields'], case['data'], case['M'], case['pc_id'], groups,
-             case['reception'], case['ts'], case.get('frag_source', 'ref'), case.get('real_ds', False))
+             case['reception'], case['ts'], case.get('frag_source', 'ref'), case.get('real_ds', False),
+             case.get('dstype', 1))
